@@ -8,37 +8,33 @@ use program_structure::file_definition::FileID;
 pub fn preprocess(expr: &str, file_id: FileID) -> Result<String, Box<Report>> {
     let mut pp = String::new();
     let mut state = 0;
-    let mut loc = 0;
+    // The byte offset of the start of the current block comment.
     let mut block_start = 0;
 
-    let mut it = expr.chars().peekable();
-    while let Some(c0) = it.next() {
-        loc += 1;
+    let mut it = expr.char_indices().peekable();
+    while let Some((index, c0)) = it.next() {
         match (state, c0) {
-            (0, '/') => {
-                loc += 1;
-                match it.next() {
-                    Some('/') => {
-                        state = 1;
-                        pp.push(' ');
-                        pp.push(' ');
-                    }
-                    Some('*') => {
-                        block_start = loc;
-                        state = 2;
-                        pp.push(' ');
-                        pp.push(' ');
-                    }
-                    Some(c1) => {
-                        pp.push(c0);
-                        pp.push(c1);
-                    }
-                    None => {
-                        pp.push(c0);
-                        break;
-                    }
+            (0, '/') => match it.next() {
+                Some((_, '/')) => {
+                    state = 1;
+                    pp.push(' ');
+                    pp.push(' ');
                 }
-            }
+                Some((_, '*')) => {
+                    block_start = index;
+                    state = 2;
+                    pp.push(' ');
+                    pp.push(' ');
+                }
+                Some((_, c1)) => {
+                    pp.push(c0);
+                    pp.push(c1);
+                }
+                None => {
+                    pp.push(c0);
+                    break;
+                }
+            },
             (0, _) => pp.push(c0),
             (1, '\n') => {
                 pp.push(c0);
@@ -48,9 +44,8 @@ pub fn preprocess(expr: &str, file_id: FileID) -> Result<String, Box<Report>> {
                 pp.push(' ');
                 // Only consume the next character if it closes the comment. Otherwise it
                 // may be the `*` of the closing `*/` (as in `**/`).
-                if it.peek() == Some(&'/') {
+                if matches!(it.peek(), Some((_, '/'))) {
                     it.next();
-                    loc += 1;
                     pp.push(' ');
                     state = 0;
                 }
@@ -64,7 +59,7 @@ pub fn preprocess(expr: &str, file_id: FileID) -> Result<String, Box<Report>> {
     }
     if state == 2 {
         // The input ended inside a block comment.
-        let error = UnclosedCommentError { location: block_start..block_start, file_id };
+        let error = UnclosedCommentError { location: block_start..block_start + 2, file_id };
         return Err(Box::new(error.into_report()));
     }
     Ok(pp)
